@@ -223,7 +223,7 @@ func c07r2(c *an.Ctx) {
 	a := A(c)
 	frameT := must(c.P.Named("drpcwire", "Frame"))
 	newFrame := a.obj("drpcstream", "(*Stream).newFrameLocked")
-	wf := a.obj("drpcwire", "(*Writer).WriteFrame")
+	wapi := writerAPI(c)
 	frDone := a.field("drpcwire", "Frame", "Done")
 	frID := a.field("drpcwire", "Frame", "ID")
 	frKind := a.field("drpcwire", "Frame", "Kind")
@@ -244,7 +244,11 @@ func c07r2(c *an.Ctx) {
 	//     and between newFrameLocked and WriteFrame only Data/Done/Control are assigned (one kind, one id per message)
 	nW := 0
 	for _, fn := range must(c.P.SourceFuncs("drpcstream")) {
-		for _, cs := range an.CallsTo(fn, false, wf) {
+		var emitSites []an.CallSite
+		for _, m := range wapi.Emit {
+			emitSites = append(emitSites, an.CallsTo(fn, false, m)...)
+		}
+		for _, cs := range emitSites {
 			nW++
 			arg := an.Arg(cs.Common(), 0)
 			ld, ok := arg.(*ssa.UnOp)
